@@ -100,7 +100,9 @@ func encodeXterm(key vaxis.Key, deckpam bool, decckm bool) string {
 			if key.ShiftedCode > 0 {
 				buf.WriteRune(key.ShiftedCode)
 			} else {
-				buf.WriteRune(key.Keycode)
+				// no shifted code reported (kitty protocol without
+				// alternate keys): letters are sent upper-case
+				buf.WriteRune(unicode.ToUpper(key.Keycode))
 			}
 			return buf.String()
 		}
